@@ -83,6 +83,115 @@ def theorem_at(path, line):
     return name
 
 
+TOP_DECL = re.compile(r"^(?:/--|/-!|@\[|theorem\b|lemma\b|def\b|abbrev\b|instance\b|structure\b|inductive\b|namespace\b|end\b|section\b|"
+                      r"open\b|variable\b|example\b|private\b|protected\b|set_option\b|#|mutual\b|attribute\b|noncomputable\b|-- )")
+
+
+def sorry_out(path, line):
+    """replace the proof of the theorem enclosing `line` (1-based) of a Lean file by `sorry`, keeping its statement;
+    returns the theorem's first line number or None if the enclosing declaration is not a theorem / was not found"""
+    src = open(path).read().split("\n")
+    i = min(line, len(src)) - 1
+    while i >= 0 and not TOP_DECL.match(src[i]):
+        i -= 1
+    # skip attributes / doc comment lines upward is not needed: we want the line with `theorem`
+    while i >= 0 and not re.match(r"^(?:private\s+|protected\s+)?(?:theorem|lemma)\b", src[i]):
+        if re.match(r"^(?:def|abbrev|instance|structure|inductive|example|namespace|end|section)\b", src[i]):
+            return None
+        i -= 1
+    if i < 0:
+        return None
+    j = i + 1
+    while j < len(src) and not TOP_DECL.match(src[j]):
+        j += 1
+    text = "\n".join(src[i:j])
+    depth = 0
+    cut = None
+    k = 0
+    while k < len(text):
+        ch = text[k]
+        if ch in "([{⟨":
+            depth += 1
+        elif ch in ")]}⟩":
+            depth -= 1
+        elif depth == 0 and text.startswith(":=", k):
+            cut = k
+            break
+        elif depth == 0 and ch == "\n" and re.match(r"\n\s*\|", text[k:k + 40]):
+            cut = k
+            break
+        k += 1
+    if cut is None:
+        return None
+    tail_blank = len(text) - len(text.rstrip("\n"))
+    new = text[:cut].rstrip() + " := sorry" + "\n" * max(tail_blank, 1)
+    src[i:j] = new.split("\n")[:-1] if new.endswith("\n") else new.split("\n")
+    open(path, "w").write("\n".join(src))
+    return i + 1
+
+
+def attribute_lean_failure(res):
+    """second pass after a failed build: in a scratch copy of the Lean project, replace the proof of every theorem
+    the compiler rejected by `sorry` (statement kept), rebuild, and let `#print axioms` tell which property theorems
+    depend on a rejected proof (`sorryAx`).  Only those properties have lost a proof obligation."""
+    scratch = os.path.join(BUILD, "lean-patched")
+    shutil.rmtree(scratch, ignore_errors=True)
+    shutil.copytree(LEAN, scratch, symlinks=True)
+    patched = []
+    errs = [(b["file"], b["line"]) for b in res["broken"] if b.get("file", "").startswith("PFV/") and b.get("line")]
+    for rnd in range(6):
+        if not errs:
+            break
+        done_here = set()
+        for f, ln in sorted(errs, key=lambda x: (x[0], -x[1])):      # bottom-up inside a file: line numbers stay valid
+            decl = theorem_at(os.path.join(scratch, f), ln)
+            if (f, decl) in done_here:
+                continue
+            start = sorry_out(os.path.join(scratch, f), ln)
+            if start is None:
+                return False
+            done_here.add((f, decl))
+            patched.append("%s:%s" % (f, decl))
+        rc, out, err = sh(["lake", "build", "PFV", "pfv-driver"], cwd=scratch, timeout=3000)
+        txt = out + err
+        errs = []
+        if rc != 0:
+            for m in re.finditer(r"error: (PFV/[^:]+):(\d+):(\d+): (.*)", txt):
+                errs.append((m.group(1), int(m.group(2))))
+            if not errs:
+                return False
+    if errs:
+        return False
+    rc2, out2, err2 = sh(["lake", "env", "lean", "PFV/Audit.lean"], cwd=scratch, timeout=1200)
+    txt2 = out2 + err2
+    if rc2 != 0:
+        return False
+    ax = {}
+    for m in re.finditer(r"'([^']+)' depends on axioms: \[([^\]]*)\]", txt2):
+        ax[m.group(1)] = [a.strip() for a in m.group(2).split(",") if a.strip()]
+    for m in re.finditer(r"'([^']+)' does not depend on any axioms", txt2):
+        ax[m.group(1)] = []
+    res["axioms"] = ax
+    res["attributed"] = True
+    res["rejected_proofs"] = patched
+    res["depends_on_rejected"] = sorted(t for t, a in ax.items() if "sorryAx" in a)
+    return True
+
+
+def lean_for(lean, ns):
+    """the build result as it concerns the property whose theorem namespaces are `ns`: after a failed build whose
+    rejected proofs could be isolated (`attribute_lean_failure`), a property has lost an obligation only if one of
+    its own theorems depends on a rejected proof"""
+    if lean["ok"] or not lean.get("attributed") or lean["forbidden"] or lean["translate"] != "ok":
+        return lean
+    own = [n for n in ns if n != "Tables"]
+    mine = [t for t in lean["depends_on_rejected"] if any(t.startswith("PFV.%s." % n) for n in own)]
+    if not mine:
+        return dict(lean, ok=True, broken=[], note="proofs rejected elsewhere (%s) do not reach this property's theorems" % ", ".join(lean["rejected_proofs"][:4]))
+    return dict(lean, broken=[b for b in lean["broken"] if b.get("file") != "PFV/Audit.lean"] +
+                [dict(file="PFV/Properties.lean", line=0, decl=t, msg="depends on a rejected proof: " + ", ".join(lean["rejected_proofs"][:4])) for t in mine])
+
+
 def build_lean():
     """returns dict(ok, broken=[{file,line,decl,msg}], axioms={thm:[..]}, forbidden=[..], wall)"""
     t0 = time.time()
@@ -106,6 +215,13 @@ def build_lean():
             res["broken"].append(dict(file=f, line=ln, decl=theorem_at(os.path.join(LEAN, f), ln), msg=msg[:300]))
         if not res["broken"]:
             res["broken"].append(dict(file="?", line=0, decl=None, msg=txt[-600:]))
+        elif res["translate"] == "ok":
+            try:
+                attribute_lean_failure(res)
+            except Exception as e:
+                res["attribution_error"] = str(e)[:300]
+        # the driver does not depend on proof files: make sure it is current even if a proof failed
+        sh(["lake", "build", "pfv-driver"], cwd=LEAN, timeout=3000)
     # forbidden constructs (outside comments)
     for root, _, files in os.walk(os.path.join(LEAN, "PFV")):
         for fn in files:
@@ -324,11 +440,11 @@ def known_findings():
 # s1      : regex selecting the S1 mismatch categories that concern the property (None = all)
 # ns      : theorem namespaces counted as this property's obligations
 PROPS = {
-    "C01": dict(key="C01", unsafe="0", streams=("S1", "S2", "S3"), s1=None, ns=["C01", "C17", "EndToEnd", "Tables"], big=True),
-    "C02": dict(key="C02", unsafe="0", streams=("S1", "S2", "S3"), s1=None, ns=["C02", "C17", "EndToEnd", "Tables"], big=True),
-    "C03": dict(key="C03", unsafe="0", streams=("S1", "S2", "S3"), s1=None, ns=["C03", "C17", "EndToEnd", "Tables"]),
+    "C01": dict(key="C01", unsafe="0", streams=("S1", "S2", "S3"), s1=None, ns=["C01", "C17", "Tables"], big=True),
+    "C02": dict(key="C02", unsafe="0", streams=("S1", "S2", "S3"), s1=None, ns=["C02", "C17", "Tables"], big=True),
+    "C03": dict(key="C03", unsafe="0", streams=("S1", "S2", "S3"), s1=None, ns=["C03", "C17", "Tables"]),
     "C04": dict(key="C04", unsafe="mix", streams=("S2", "S3"), s1=r"^$", ns=["C04", "Tables"], big=True),
-    "C05": dict(key="C05", unsafe="0", streams=("S1", "S2", "S3"), s1=r"cleanup|valid_opcodes", ns=["C05", "EndToEnd", "Tables"], big=True),
+    "C05": dict(key="C05", unsafe="0", streams=("S1", "S2", "S3"), s1=r"cleanup|valid_opcodes", ns=["C05", "Tables"], big=True),
     "C06": dict(key="C06", unsafe="mix", streams=("S2", "S3"), s1=r"^$", ns=["C06"], big=True),
     "C08": dict(key=None, unsafe="mix", streams=("S6", "S3"), s1=r"^$", ns=["C08"]),
     "C09": dict(key="gen", unsafe="mix", streams=("S3", "S4", "S5"), s1=r"^$", ns=["C09", "C18", "Tables"], big=True),
@@ -828,7 +944,7 @@ def check_property(prop, tier, seed):
     known_lines = []
     notes = []
     with Lock():
-        lean = build_lean()
+        lean = lean_for(build_lean(), P["ns"])
         har = build_harness()
     open_f, fixed = known_findings()
     open_keys = {f["key"]: f for f in open_f if f["property"] == prop}
@@ -837,11 +953,14 @@ def check_property(prop, tier, seed):
     shared = ("PFV.Run.pre", "PFV.run_accepted", "PFV.header_steps", "PFV.srel_init")
     thms = {t: ax for t, ax in lean["axioms"].items()
             if any(t.startswith("PFV.%s." % n) for n in P["ns"]) or t in shared}
-    cov["obligations"] = len(thms) + len(lean["broken"])
-    cov["discharged"] = len(thms)
+    rejected = [t for t, ax in thms.items() if "sorryAx" in ax]
+    cov["obligations"] = len(thms) + (len(lean["broken"]) if not lean.get("attributed") else 0)
+    cov["discharged"] = len(thms) - len(rejected)
     cov["checker_cmd"] = "cd /verif/lean && lake build PFV pfv-driver && lake env lean PFV/Audit.lean"
     cov["theorems"] = sorted(thms)
     cov["axioms_used"] = sorted({a for ax in thms.values() for a in ax})
+    if lean.get("note"):
+        notes.append(lean["note"])
 
     if not har["ok"]:
         p = write_replay(prop, "correspondence", dict(stream="harness-build", what="the harness no longer builds against /repo's working tree",
@@ -888,6 +1007,19 @@ def check_property(prop, tier, seed):
     cov["input_distribution"] = cx.hist
     cov["impl_vs_oracle_failures"] = len(cx.failing)
     cov["model_vs_impl_disagreements"] = sum(c["count"] for c in cx.corr)
+    if prop in ("C04", "C17"):
+        # who checks the specification: Lex/Ref against CPython pickletools on real outputs, corruptions, edge cases.
+        # A disagreement is a defect of the specification (a false-alarm risk), not a violation of the property: noted.
+        try:
+            rc_s, out_s, err_s = sh([sys.executable, os.path.join(VERIF, "tools", "specval.py"), "120" if tier == "quick" else "1500", str(seed)],
+                                    timeout=STREAM_TIMEOUT[0])
+            summ = [l for l in out_s.split("\n") if l.startswith("specval summary")]
+            cov["spec_validation_vs_cpython_pickletools"] = summ[0][len("specval summary "):] if summ else ("did not run: " + (err_s or out_s)[-200:])
+            if rc_s != 0 and summ:
+                notes.append("specification disagrees with CPython pickletools on some input (see tools/specval.py): " +
+                             "; ".join(l for l in out_s.split("\n") if "DISAGREE" in l)[:600])
+        except Exception as e:
+            cov["spec_validation_vs_cpython_pickletools"] = "did not run: %s" % str(e)[:200]
 
     # ---- verdict
     if cx.failing:
@@ -981,8 +1113,8 @@ EXTRA = {}          # properties with their own driver function (registered belo
 def obligations(cov, lean, ns):
     shared = ()
     thms = {t: ax for t, ax in lean["axioms"].items() if any(t.startswith("PFV.%s." % n) for n in ns)}
-    cov["obligations"] = len(thms) + len(lean["broken"])
-    cov["discharged"] = len(thms)
+    cov["obligations"] = len(thms) + (len(lean["broken"]) if not lean.get("attributed") else 0)
+    cov["discharged"] = len(thms) - len([t for t, ax in thms.items() if "sorryAx" in ax])
     cov["checker_cmd"] = "cd /verif/lean && lake build PFV pfv-driver && lake env lean PFV/Audit.lean"
     cov["theorems"] = sorted(thms)
     cov["axioms_used"] = sorted({a for ax in thms.values() for a in ax})
@@ -1000,6 +1132,7 @@ def check_c07(prop, tier, seed):
     with Lock():
         lean = build_lean()
         har = build_harness()
+    lean = lean_for(lean, ["C07", "C18"])
     obligations(cov, lean, ["C07", "C18"])
     if not har["ok"]:
         p = write_replay(prop, "correspondence", dict(stream="harness-build", detail=har["msg"][-800:]))
@@ -1081,6 +1214,7 @@ def check_c12(prop, tier, seed):
     with Lock():
         lean = build_lean()
         har = build_harness()
+    lean = lean_for(lean, ["C12", "Tables"])
     obligations(cov, lean, ["C12", "Tables"])
     if not har["ok"]:
         p = write_replay(prop, "correspondence", dict(stream="harness-build", detail=har["msg"][-800:]))
@@ -1185,6 +1319,7 @@ def check_c13(prop, tier, seed):
     with Lock():
         lean = build_lean()
         har = build_harness()
+    lean = lean_for(lean, ["C13"])
     obligations(cov, lean, ["C13"])
     if not har["ok"]:
         p = write_replay(prop, "correspondence", dict(stream="harness-build", detail=har["msg"][-800:]))
@@ -1281,6 +1416,7 @@ def check_c14(prop, tier, seed):
     with Lock():
         lean = build_lean()
         har = build_harness()
+    lean = lean_for(lean, ["C14"])
     obligations(cov, lean, ["C14"])
     cov["obligations"] += 1            # the translator's syntactic site check (push/reset/Drop/borrow_mut sites)
     if lean.get("heap_refused"):
